@@ -130,6 +130,7 @@ type run struct {
 	known    map[string]*submitted // raw -> what the harness knows about an accepted presentation
 	shortExp []int64
 	ticked   bool
+	hasTick  bool
 	maxTs    map[string]int // per seed: highest timestamp handed out
 	creds    map[string]string
 	credsKey map[string]string
@@ -489,9 +490,17 @@ func (r *run) rawByJTI(jti string) string {
 
 // ------------------------------------------------------------------------------------------ steps
 
+// shortValidity is the real validity (seconds, rounded down to the second) of a "short" presentation in a script
+// that contains a Tick; everything before the Tick has to happen within it.
+const shortValidity = 4
+
 func (r *run) expFor(e string) time.Time {
 	if e == "short" && !r.ticked {
-		return time.Unix(time.Now().Unix()+3, 0)
+		if !r.hasTick {
+			// nothing expires in this behaviour: "short" only has to expire before "long"
+			return time.Now().Add(20 * time.Minute).Truncate(time.Second)
+		}
+		return time.Unix(time.Now().Unix()+shortValidity, 0)
 	}
 	return time.Now().Add(30 * time.Minute).Truncate(time.Second)
 }
@@ -710,7 +719,7 @@ func (r *run) doSubmit(st step) error {
 				r.viol("retraction-not-by-signer", "validateRetraction", fmt.Sprintf("retraction of %q accepted from %s, which has no listed presentation with that id", target, r.subjectOf(signer)))
 			}
 		}
-		if e := st.str("e"); e == "short" && !r.ticked {
+		if e := st.str("e"); e == "short" && !r.ticked && r.hasTick {
 			r.shortExp = append(r.shortExp, sub.exp)
 		}
 		r.known[raw] = sub
@@ -902,6 +911,11 @@ func (l *lab) runScript(in *input, sc script) *result {
 	r := &run{l: l, in: in, res: res, sched: gate.New(), ctx: context.Background(), seeds: map[string]int{}, known: map[string]*submitted{},
 		maxTs: map[string]int{}, creds: map[string]string{}, credsKey: map[string]string{}, otherVC: map[string]string{}}
 	r.sched.BlockedAfter = 5 * time.Millisecond
+	for _, st := range sc.Steps {
+		if st.str("a") == "Tick" {
+			r.hasTick = true
+		}
+	}
 	defer func() {
 		r.sched.Kill()
 		l.srv.gate.onQuery.Store(nil)
